@@ -41,7 +41,7 @@ INJECT_KEY = "hygienize-inject-order: M0 = {emit}; M1 = {emit; M0(); emit}; both
 INJECT_WITNESS = ([["e"], ["e", ("c", 0), "e"]], [("d", 0), ("d", 1), "p", ("c", 1), "p"])
 THEOREM_CLASSES = {
     "C16_memoize_canonical": "main", "C16_generic_same_type": "main", "C16_memoize_once_per_class": "corollary",
-    "C16_polyeval_reuse": "main", "C16_polyeval_same_args_one_specialisation": "main",
+    "C16_polyeval_reuse": "definitional", "C16_polyeval_same_args_one_specialisation": "main",
     "C16_polyeval_distinct_types_distinct_specialisations": "main", "C16_polyeval_comptime_values_distinguish": "main",
     "C16_hygiene_resolution": "main", "C16_hygiene_no_leak": "main", "C16_restoring_pop_needed": "refutation",
     "C16_hygiene_unbound_names_fall_through_partial": "corollary",
